@@ -20,6 +20,7 @@ EXTENDS Integers, Sequences, FiniteSets, TLC
 
 CONSTANTS MaxId,      \* max_request_id: ids are 0..MaxId, at most MaxId may be in flight
           InitFree,   \* harness only: size the real id deque is shrunk to, so that its on-demand growth is exercised
+          HbDefunct,  \* TRUE: defunct() may also be called by the heartbeat thread, concurrently with the loop thread
           BadAnswers, \* TRUE: the node may send an undecodable body or a protocol-error frame (process_msg defuncts)
           AnyId,      \* TRUE: get_request_id may hand out ANY available id (all the property says; used when recorded
                       \* runs are validated).  FALSE: the least available id - a symmetry reduction for the exhaustive
@@ -57,9 +58,12 @@ VARIABLES avail,     \* the ids get_request_id may still hand out: request_ids (
           pages,     \* per request: pages its paging session has received
           cperr,     \* per request: connection errors delivered to its paging session
           defunct, closed,
+          dfn,       \* a defunct() call made by ANOTHER thread than the loop thread (the heartbeat thread) in progress:
+                     \* "none" | "begun" (guard passed, flag set, handlers not yet failed) | "begun2" (a second defunct -
+                     \* the loop thread's socket error - came meanwhile and was turned away) | "done"
           writable,  \* _socket_writable: FALSE while the reactor's write buffer is full (send_msg raises ConnectionBusy)
           act        \* last action, for replay
-vars == <<avail, inflight, reqs, orphans, srv, st, ph, rid, got, errs, cps, pages, cperr, defunct, closed, writable, act>>
+vars == <<avail, inflight, reqs, orphans, srv, st, ph, rid, got, errs, cps, pages, cperr, defunct, closed, dfn, writable, act>>
 
 Range(f) == {f[x] : x \in DOMAIN f}
 SeqSet(s) == {s[i] : i \in 1..Len(s)}
@@ -82,6 +86,7 @@ Init ==
     /\ cperr = [r \in Reqs |-> 0]
     /\ defunct = FALSE
     /\ closed = FALSE
+    /\ dfn = "none"
     /\ writable = TRUE
     /\ act = A("Init", None, -1)
 
@@ -100,6 +105,7 @@ Borrow(r) ==
     /\ inflight' = inflight + 1
     /\ st' = [st EXCEPT ![r] = "borrowed"]
     /\ UNCHANGED <<reqs, orphans, srv, ph, got, errs, cps, pages, cperr, defunct, closed, writable>>
+    /\ UNCHANGED dfn
 
 (* Connection.send_msg from ResponseFuture._query, first half: shutdown / writability checks and the   *)
 (* registration of the handler (adjacent statements, one step); the thread then encodes the message.  *)
@@ -123,18 +129,20 @@ Send(r) ==
             /\ UNCHANGED <<inflight, avail>>
     /\ act' = A("Send", r, rid[r])
     /\ UNCHANGED <<orphans, srv, rid, got, errs, cps, pages, cperr, defunct, closed, writable>>
+    /\ UNCHANGED dfn
 
 (* second half of send_msg: the encoded frame is pushed.  If the connection failed meanwhile the handler *)
 (* was already errored by FailAll (it was registered) and the bytes go nowhere.                          *)
 Push(r) ==
     /\ ph[r] = "encode"
     /\ ph' = [ph EXCEPT ![r] = "none"]
-    /\ IF ~Dead /\ st[r] = "sending"
+    /\ IF ~closed /\ st[r] = "sending"          \* (a socket marked defunct but not yet closed still takes the bytes)
        THEN /\ st' = [st EXCEPT ![r] = "sent"]
             /\ srv' = srv \cup {<<rid[r], r>>}
        ELSE UNCHANGED <<st, srv>>
     /\ act' = A("Push", r, rid[r])
     /\ UNCHANGED <<avail, inflight, reqs, orphans, rid, got, errs, cps, pages, cperr, defunct, closed, writable>>
+    /\ UNCHANGED dfn
 
 (* Connection.process_msg for the answer to request q on stream id (whole callback, loop thread) *)
 Respond(id, q) ==
@@ -157,6 +165,7 @@ Respond(id, q) ==
                /\ act' = A("RespondLate", q, id)
     /\ avail' = avail \cup {id}
     /\ UNCHANGED <<ph, rid, errs, cps, pages, cperr, defunct, closed, writable>>
+    /\ UNCHANGED dfn
 
 (* process_msg for an answer the connection cannot accept (whole callback, loop thread).  "RespondCorrupt": the  *)
 (* body cannot be decoded - the request's handler (already taken out of _requests) is called with the decode   *)
@@ -183,6 +192,7 @@ RespondBad(id, q, kind) ==
     /\ avail' = IF kind = "RespondProtoError" THEN avail \cup {id} ELSE avail
     /\ defunct' = TRUE /\ closed' = TRUE
     /\ UNCHANGED <<orphans, ph, rid, got, cps, pages, writable>>
+    /\ UNCHANGED dfn
 
 (* Continuous paging (DSE): the node streams several pages on the request's stream.  The first page goes *)
 (* to the request's handler, which returns the connection to the pool (in_flight -= 1) and registers a   *)
@@ -213,6 +223,7 @@ RespondPage(id, q, last) ==
             /\ inflight' = inflight - 1
     /\ avail' = IF last THEN avail \cup {id} ELSE avail
     /\ UNCHANGED <<orphans, ph, rid, errs, cperr, defunct, closed, writable>>
+    /\ UNCHANGED dfn
 
 (* ResponseFuture._on_timeout (whole callback, loop thread) *)
 Timeout(r) ==
@@ -225,6 +236,7 @@ Timeout(r) ==
     /\ st' = [st EXCEPT ![r] = "timedout"]
     /\ act' = A("Timeout", r, rid[r])
     /\ UNCHANGED <<avail, inflight, srv, ph, rid, got, errs, cps, pages, cperr, defunct, closed, writable>>
+    /\ UNCHANGED dfn
 
 (* _on_timeout running for a request whose answer was already processed (the timer's cancellation lost the *)
 (* race, or send_request called it): the handler is gone, the stream id belongs to nobody (or was recycled) *)
@@ -235,10 +247,11 @@ TimeoutStale(r) ==
     /\ rid[r] \notin DOMAIN reqs /\ rid[r] \notin DOMAIN cps
     /\ act' = A("TimeoutStale", r, rid[r])
     /\ UNCHANGED <<avail, inflight, reqs, orphans, srv, st, ph, rid, got, errs, cps, pages, cperr, defunct, closed, writable>>
+    /\ UNCHANGED dfn
 
 (* Connection.defunct / close: every registered handler gets one connection error; the request's     *)
 (* error handling returns the connection to the pool (in_flight -= 1 per errored request).           *)
-FailAll(name, failSessions) ==
+FailAllCore(name, failSessions) ==
     /\ ~Dead
     /\ LET victims == Range(reqs) IN
        /\ errs' = [r \in Reqs |-> IF r \in victims THEN errs[r] + 1 ELSE errs[r]]
@@ -257,9 +270,42 @@ SetWritable(w) ==
     /\ writable' = w
     /\ act' = A(IF w THEN "SocketWritable" ELSE "SocketBusy", None, -1)
     /\ UNCHANGED <<avail, inflight, reqs, orphans, srv, st, ph, rid, got, errs, cps, pages, cperr, defunct, closed>>
+    /\ UNCHANGED dfn
+
+FailAll(name, failSessions) == dfn \in {"none", "done"} /\ FailAllCore(name, failSessions) /\ UNCHANGED dfn
 
 SocketError == FailAll("SocketError", TRUE) /\ defunct' = TRUE /\ closed' = TRUE
 Close       == FailAll("Close", CloseFailsSessions) /\ closed' = TRUE /\ UNCHANGED defunct
+
+(* defunct() called by another thread (ConnectionHeartbeat.run on a failed heartbeat) while the loop thread may  *)
+(* report a socket error of its own.  Connection.defunct's guard is one critical section: test is_defunct /     *)
+(* is_closed AND set is_defunct; whoever comes second is turned away, so every handler and every paging session *)
+(* is failed once.                                                                                               *)
+HbDefunctBegin ==
+    /\ HbDefunct
+    /\ ~Dead /\ dfn = "none"
+    /\ defunct' = TRUE /\ dfn' = "begun"
+    /\ act' = A("HbDefunctBegin", None, -1)
+    /\ UNCHANGED <<avail, inflight, reqs, orphans, srv, st, ph, rid, got, errs, cps, pages, cperr, closed, writable>>
+
+SocketErrorDuringDefunct ==           \* the loop thread's defunct(): guard sees the flag, returns
+    /\ dfn = "begun"
+    /\ dfn' = "begun2"
+    /\ act' = A("SocketErrorDuringDefunct", None, -1)
+    /\ UNCHANGED <<avail, inflight, reqs, orphans, srv, st, ph, rid, got, errs, cps, pages, cperr, defunct, closed, writable>>
+
+HbDefunctFinish ==
+    /\ dfn \in {"begun", "begun2"}
+    /\ LET victims == Range(reqs) IN
+       /\ errs' = [r \in Reqs |-> IF r \in victims THEN errs[r] + 1 ELSE errs[r]]
+       /\ st' = [r \in Reqs |-> IF r \in victims THEN "errored" ELSE st[r]]
+       /\ inflight' = inflight - Cardinality(victims)
+    /\ cperr' = [r \in Reqs |-> IF r \in Range(cps) THEN cperr[r] + 1 ELSE cperr[r]]
+    /\ reqs' = <<>>
+    /\ srv' = {}
+    /\ closed' = TRUE /\ dfn' = "done"
+    /\ act' = A("HbDefunctFinish", None, -1)
+    /\ UNCHANGED <<avail, orphans, ph, rid, got, cps, pages, defunct, writable>>
 
 Next ==
     \/ \E r \in Reqs : Borrow(r) \/ Send(r) \/ Push(r) \/ Timeout(r) \/ TimeoutStale(r)
@@ -268,6 +314,7 @@ Next ==
     \/ \E id \in Ids, q \in Reqs, last \in BOOLEAN : RespondPage(id, q, last)
     \/ SocketError
     \/ Close
+    \/ HbDefunctBegin \/ SocketErrorDuringDefunct \/ HbDefunctFinish
     \/ \E w \in BOOLEAN : SetWritable(w)
 
 Spec == Init /\ [][Next]_vars
@@ -309,10 +356,11 @@ Recycled == (Quiescent /\ ~Dead) => /\ inflight = 0
 
 (* C10 *)
 FailedOnce == \A r \in Reqs : errs[r] <= 1 /\ cperr[r] <= 1
-AllFailed  == Dead => /\ reqs = <<>>
-                      /\ \A r \in Reqs : st[r] \notin {"sending", "sent"}
-                      /\ \A r \in Reqs : st[r] \in {"errored", "failed"} <=> errs[r] = 1
-                      /\ (defunct \/ CloseFailsSessions) => \A r \in Range(cps) : cperr[r] = 1   \* open paging sessions too
+AllFailed  == (Dead /\ dfn \notin {"begun", "begun2"}) =>
+                  /\ reqs = <<>>
+                  /\ \A r \in Reqs : st[r] \notin {"sending", "sent"}
+                  /\ \A r \in Reqs : st[r] \in {"errored", "failed"} <=> errs[r] = 1
+                  /\ (defunct \/ CloseFailsSessions) => \A r \in Range(cps) : cperr[r] = 1   \* open paging sessions too
 NothingAfterDeath == [][Dead => got' = got /\ pages' = pages]_vars
 SendRefusedWhenDead == [][\A r \in Reqs : (Dead /\ st[r] = "borrowed" /\ st'[r] # "borrowed") => st'[r] = "refused"]_vars
 
@@ -326,5 +374,6 @@ Witness_FailWhileEncoding == ~(\E r \in Reqs : ph[r] = "encode" /\ st[r] = "erro
 Witness_StaleTimeout == act.name # "TimeoutStale"
 Witness_Busy == ~(\E r \in Reqs : st[r] = "refused" /\ ~Dead)
 Witness_Refused == \A r \in Reqs : st[r] # "refused"
+Witness_TwoDefunctsRace == ~(dfn = "begun2" /\ cps # <<>>)
 Witness_BadAnswerWithOthersPending == ~(\E r \in Reqs : st[r] = "failed" /\ \E x \in Reqs : st[x] = "errored")
 =============================================================================
